@@ -29,6 +29,9 @@ func init() {
 		goTableRule(c, "C11/GO-TABLE")
 		onErrorCancelRule(c, "C11/ONERROR-CANCEL")
 		lockOrderRule(c, "C11/LOCK-ORDER", 3)
+		c11OrphanSession(c)
+		c11CloseRegistered(c)
+		c02SessionLink(c, "C11/SESSION-LINK")
 		noPanicFor(c, "C11")
 	}
 }
